@@ -124,7 +124,7 @@ theorem hgcd_matrix_adjust_correct (M : HM) (n a b p S T : Nat) (hf : M.Fits) (h
     (n ≤ (matAdjust M n a b p).1 → B ^ ((matAdjust M n a b p).1 - 1) ≤ (matAdjust M n a b p).2.1 ∨
         B ^ ((matAdjust M n a b p).1 - 1) ≤ (matAdjust M n a b p).2.2) ∧
     B ^ p * (a / B ^ p - M.e01) ≤ (matAdjust M n a b p).2.1 ∧ B ^ p * (b / B ^ p - M.e10) ≤ (matAdjust M n a b p).2.2 :=
-  matAdjust_spec M n a b p S T hf hpn ha hb hn hr h01 h10
+  matAdjust_spec M n a b p S T M.n hpn hf.1 hf.2.2.2 ha hb hn hr h01 h10
 
 -- non-vacuity: M = (3 2; 4 3), p = 1, reduced high parts (B+7; B+5), low limbs (11; B-1)
 example : matAdjust ⟨3, 1, 3, 2, 4, 3⟩ 3 (B * (B + 7) + 11) (B * (B + 5) + (B - 1)) 1
